@@ -31,6 +31,24 @@ class ArrayOpSpec(FuncSpec):
     def declines(self, c, a, k, e):
         return False
 
+    def replay_case(self, cfg, model):
+        """-> (arrays: {label: (ndim, fixed)}, build_src, reference_src) or None"""
+        return None
+
+    def replay(self, cfg, model, ob):
+        rc = self.replay_case(cfg, model)
+        if rc is None:
+            return None
+        arrays, build, ref = rc
+        lines = ["import sys", "sys.path.insert(0, '/verif')", "from pyvc.replay_lib import model_array, run_array_case",
+                 f"model = {dict(model)!r}", "arrays = {}"]
+        for i, (label, (nd, fixed)) in enumerate(arrays.items()):
+            lines.append(f"arrays[{label!r}] = model_array(model, {label!r}, {nd}, {fixed!r}, offset={1000 * i})")
+        lines.append(f"build = {build}")
+        lines.append(f"reference = {ref}")
+        lines.append("reproduced, detail = run_array_case(build, reference, arrays)")
+        return "\n".join(lines) + "\n"
+
 
 @register
 class Repeat(ArrayOpSpec):
@@ -57,3 +75,149 @@ class Repeat(ArrayOpSpec):
     def canaries(self, c, a, k, res):
         x, r = a
         yield "canary:shape-unchanged", c.eq_tuple(res.shape, x.shape)
+
+    def replay_case(self, cfg, model):
+        r, ax = model.get("repeats", 0), cfg["axis"]
+        return ({"x": (cfg["ndim"], None)}, f"lambda xp, a: xp.repeat(a['x'], {r}, axis={ax})",
+                f"lambda np, a: np.repeat(a['x'], {r}, axis={ax})")
+
+
+@register
+class Stack(ArrayOpSpec):
+    """stack(arrays, axis): result[.., j, ..] == arrays[j][..]  (NumPy requires equal shapes)"""
+
+    target = f"{MF}:stack"
+
+    def configs(self, tier):
+        ks = (2,) if tier == "quick" else (1, 2, 3)
+        return [dict(ndim=nd, axis=ax, k=k) for nd in ranks(tier)[:2] for ax in range(nd + 1) for k in ks]
+
+    def setup(self, c):
+        nd, ax, k = c.cfg["ndim"], c.cfg["axis"], c.cfg["k"]
+        arrs = [sym_array(c, f"a{j}", nd) for j in range(k)]
+        for a in arrs[1:]:
+            for n0, n1 in zip(arrs[0].shape, a.shape):
+                c.assume(n0 == n1)  # NumPy's own precondition
+        names = tuple(a.name for a in arrs)
+
+        def exp(j, g):
+            nm = c.interp.pick(names, g[ax])
+            return (nm, tuple(g[:ax]) + tuple(g[ax + 1:]))
+
+        c.expect_origin = exp
+        return (arrs,), dict(axis=ax)
+
+    def ensures(self, c, a, k, res):
+        arrs, ax = a[0], k["axis"]
+        s0 = arrs[0].shape
+        yield "shape", c.eq_tuple(res.shape, s0[:ax] + (len(arrs),) + s0[ax:])
+
+    def replay_case(self, cfg, model):
+        nd, ax, k = cfg["ndim"], cfg["axis"], cfg["k"]
+        m = dict(model)
+        for j in range(1, k):
+            for i in range(nd):
+                m[f"a{j}_n{i}"] = m.get("a0_n%d" % i, 0)
+        model.update(m)
+        labels = [f"a{j}" for j in range(k)]
+        return ({l: (nd, None) for l in labels}, f"lambda xp, a: xp.stack([a[l] for l in {labels!r}], axis={ax})",
+                f"lambda np, a: np.stack([a[l] for l in {labels!r}], axis={ax})")
+
+
+@register
+class Unstack(ArrayOpSpec):
+    target = f"{MF}:unstack"
+
+    def configs(self, tier):
+        return [dict(ndim=nd, axis=ax, n=n) for nd in (2,) + ((3,) if tier != "quick" else ()) for ax in range(nd) for n in (2, 3)]
+
+    def setup(self, c):
+        nd, ax, n = c.cfg["ndim"], c.cfg["axis"], c.cfg["n"]
+        x = sym_array(c, "x", nd, fixed={ax: n})  # the number of outputs is structural: enumerated
+        c.expect_origin = lambda j, g: ("array-x", tuple(g[:ax]) + (j,) + tuple(g[ax:]))
+        return (x,), dict(axis=ax)
+
+    def ensures(self, c, a, k, res):
+        x, ax = a[0], k["axis"]
+        yield "count", len(res) == c.cfg["n"]
+        for j, r in enumerate(res):
+            yield f"shape[{j}]", c.eq_tuple(r.shape, x.shape[:ax] + x.shape[ax + 1:])
+
+
+@register
+class ReshapeChunks(ArrayOpSpec):
+    """reshape_chunks(x, shape, chunks) — internal helper; contract for its single-block call site in `reshape`
+    (x.npartitions == 1, chunks = one block per axis). The multi-block call site goes through the vendored dask
+    `reshape_rechunk` planner, which is outside the modelled subset (not covered)."""
+
+    target = f"{MF}:reshape_chunks"
+    props = ("C12", "C17")
+    not_covered = ("reshape of multi-block arrays (vendored dask reshape_rechunk planner)",)
+
+    def configs(self, tier):
+        return [dict(nin=1, nout=2), dict(nin=2, nout=1)] + ([dict(nin=2, nout=2), dict(nin=1, nout=1)] if tier != "quick" else [])
+
+    def setup(self, c):
+        from pyvc.arrays import ConstGrid
+
+        x = sym_array(c, "x", c.cfg["nin"], single_chunk_axes=range(c.cfg["nin"]))
+        nout = c.cfg["nout"]
+        shape = c.ints("s", nout, lo=0)
+        chunks = tuple((d,) for d in shape)  # as `reshape` passes for npartitions == 1
+        return (x, shape, chunks), {}
+
+    def ensures(self, c, a, k, res):
+        yield "shape", c.eq_tuple(res.shape, a[1])
+
+    def declines(self, c, a, k, e):
+        x, shape, chunks = a
+        return c.prod(shape) != c.prod(x.shape)
+
+
+@register
+class ExpandDims(ArrayOpSpec):
+    target = f"{MF}:expand_dims"
+
+    def configs(self, tier):
+        return [dict(ndim=nd, axis=ax) for nd in ranks(tier)[:2] for ax in range(nd + 1)]
+
+    def setup(self, c):
+        nd, ax = c.cfg["ndim"], c.cfg["axis"]
+        x = sym_array(c, "x", nd)
+        c.expect_origin = lambda j, g: ("array-x", tuple(g[:ax]) + tuple(g[ax + 1:]))
+        return (x,), dict(axis=ax)
+
+    def ensures(self, c, a, k, res):
+        x, ax = a[0], k["axis"]
+        yield "shape", c.eq_tuple(res.shape, x.shape[:ax] + (1,) + x.shape[ax:])
+
+
+@register
+class PermuteDims(ArrayOpSpec):
+    target = f"{MF}:permute_dims"
+
+    def configs(self, tier):
+        import itertools
+
+        out = []
+        for nd in ranks(tier):
+            for p in itertools.permutations(range(nd)):
+                out.append(dict(ndim=nd, axes=list(p)))
+        return out
+
+    def setup(self, c):
+        nd, axes = c.cfg["ndim"], tuple(c.cfg["axes"])
+        x = sym_array(c, "x", nd)
+
+        def exp(j, g):
+            src = [None] * nd
+            for i, a_ in enumerate(axes):
+                src[a_] = g[i]
+            return ("array-x", tuple(src))
+
+        c.expect_origin = exp
+        return (x, axes), {}
+
+    def ensures(self, c, a, k, res):
+        x, axes = a
+        yield "shape", c.eq_tuple(res.shape, tuple(x.shape[i] for i in axes))
